@@ -21,6 +21,25 @@ THEOREMS = [
     "C12.alpha_tumbling_holds_current",
     "C12.alpha_front_only_counterexample",
     "C12.alpha_tumbling_old_counterexample",
+    # sliding / session modes (C12c)
+    "C12.wm_fixed_model_meets_spec",
+    "C12.wm_fixed_trace_defined",
+    "C12.manager_fixed_places_once",
+    "C12.manager_fixed_invariant",
+    "C12.manager_sliding_span_complete_counterexample",
+    "C12.manager_session_gap_counterexample",
+    "C12.windowed_stream_sliding_grid",
+    "C12.windowed_stream_sliding_exact",
+    "C12.wss_model_meets_spec",
+    "C12.ws_grid_length",
+    "C12.ws_sliding_old_diverges",
+    "C12.alpha_session_model_meets_spec",
+    "C12.alpha_session_invariant",
+    "C12.alpha_session_step",
+    "C12.alpha_session_keeps_live_session_counterexample",
+    "C12.wm_fixed_zero_duration",
+    "C12.aggregates2_meet_spec",
+    "C12.aggregates2_are_exact",
 ]
 N = {"quick": 4000, "thorough": 60000}
 EXHAUSTIVE = {"quick": False, "thorough": False}
@@ -35,7 +54,18 @@ RULE = ("cases = corpus (defect witnesses + corner cases) + for every timestamp 
         "(return value, span, retained event ids, count/sum/average/min/max through TimeWindow, Aggregator::aggregate, "
         "Aggregator::aggregate_events and operators::{Count,Sum,Average,Min,Max}) are diffed and the Spec predicates "
         "twRunOk / wmRunOk / wsOk / anRunOk are evaluated on the implementation's observations. A case is non-trivial when "
-        "it has >=2 events with at least one late (out-of-order) arrival; distinct = distinct case text.")
+        "it has >=2 events with at least one late (out-of-order) arrival; distinct = distinct case text. "
+        "Sliding/session modes (C12c): for every timestamp sequence of length <=4 over 0..3 additionally a sliding and a session "
+        "WindowManager (with and without a binding window limit) and a session StreamAlphaNode (two clock regimes), for every "
+        "sequence of length <=3 a sliding/session WindowedStream::new with d=1,3,4; + 3N/4 random cases split over "
+        "WindowManager S/N (fixed windows, first fit; wmfRunOk), WindowedStream::new S/N (durations 0,1,2,3,4,5,7,8,10,13 — 1 ms is the "
+        "former hang; each constructor call runs in a child process of the harness killed at a deadline, observation `hang`; wssOk) and "
+        "StreamAlphaNode session windows (gaps timeout-1/timeout/timeout+1, late and stale events, timeouts 0..8; ansRunOk); "
+        "+ max(60,N/50) cases with ONE window of 33..130 events (record, add_event, tumbling manager, tumbling and sliding "
+        "WindowedStream) whose aggregates are compared with the fold; + max(54,N/8) cases of every component with all timestamps "
+        "moved up by 1_700_000_000_123, 2^40-3, 2^40+5, 2^32-2, 250*2^32+17 or 2^53 (tumbling durations 1,10,100,250 there); "
+        "+ N/8 cases `AG`: First, Last, CountDistinct, CountBy, Percentile 0/25/50/75/100 and StdDev-definedness of one window "
+        "(0..40 events, few distinct values as Number / Integer / String twins, missing fields; agg2Ok).")
 TRUSTED = [
     "Lean 4.33 kernel; axioms of every property theorem within {propext, Classical.choice, Quot.sound} (audited each run)",
     "hand-written model RreModel/C12/Model.lean tied to src/streaming/window.rs, operators.rs, aggregator.rs, event.rs and "
@@ -43,8 +73,11 @@ TRUSTED = [
     "harness/src/bin/c12.rs, Driver/C12.lean parsing/printing glue (incl. IEEE division for average on the driver side), check.py diff",
     "hook: #[cfg(rre_verif)] thread-local clock override read by StreamAlphaNode::current_time_ms (hooks-C12.patch); with the cfg "
     "off the function reads the system clock as before",
-    "not modelled: session windows of StreamAlphaNode, the sliding/session branch of WindowedStream::new, the non-numeric aggregates "
-    "(CountDistinct, StdDev, Percentile, First, Last, CountBy), StreamAnalytics",
+    "the sliding/session WindowedStream::new call runs in a child process of the harness binary (same code, RRE_C12_INPROC) "
+    "so that a non-returning constructor can be killed at a deadline (800 ms; 120 ms after 6 hangs in one run)",
+    "not modelled: the VALUE of StdDev (only when it is defined), percentiles other than 0/25/50/75/100 (their index goes through "
+    "an inexact f64 product), Aggregator::aggregate_events for the non-basic types (answers None by design), StreamAnalytics, "
+    "KeyedWindowedStream, WindowedStream::aggregate/reduce/flatten (only windows()/counts() are observed)",
 ]
 ASSUMPTIONS = [
     "timestamps/durations are u64 milliseconds modelled as Nat (saturating_sub = Nat subtraction); no u64 overflow",
@@ -54,6 +87,11 @@ ASSUMPTIONS = [
     "WindowedStream windows come out of a HashMap in arbitrary order: compared as the list sorted by start (starts are proved distinct); "
     "counts() compared as a sorted multiset",
     "retention cap semantics: the oldest-arrived event is dropped first; StreamAlphaNode counts the cap on arrival, before eviction",
+    "sliding/session WindowManager and session StreamAlphaNode are specified AS CODED (first fit into fixed windows, the session "
+    "timeout is not read by the manager; the node's 'last activity' is the last ARRIVED timestamp): what they do not guarantee is "
+    "stated and refuted in Lean (manager_sliding_span_complete_counterexample, manager_session_gap_counterexample, "
+    "alpha_session_keeps_live_session_counterexample) and tagged in the evidence (span-incomplete, late-wipe), not flagged",
+    "manager theorems for sliding/session need duration >= 1 ms (with 0 the manager holds no window at all; covered by the diff only)",
 ]
 
 
@@ -69,10 +107,17 @@ LEVEL_TEXT = ("Lean 4 theorems (kernel-checked, unbounded: every duration/cap/li
               "StreamAlphaNode (none/sliding/tumbling, explicit clock) and the aggregates satisfies the observation-level specs "
               "twRunOk / wmRunOk / wsOk / anRunOk / aggOk, plus aligned_contains/aligned_unique, record_retains_exactly, "
               "windowed_stream_partition, manager_places_once + manager_invariant for WindowManager::process_event, and machine-checked "
-              "counterexamples for the pre-fix eviction (F-C12) and the pre-fix tumbling roll-over (F-C12b); tied to the Rust code by a "
+              "counterexamples for the pre-fix eviction (F-C12) and the pre-fix tumbling roll-over (F-C12b); the same for the sliding and "
+              "session modes: wm_fixed_model_meets_spec (WindowManager S/N, every clause of wmfStepOk over all histories), "
+              "manager_fixed_places_once/_invariant, windowed_stream_sliding_grid/_exact + wss_model_meets_spec (WindowedStream::new S/N after "
+              "fix-C12c, no hypothesis on duration/cap/events; termination by the positive step, ws_grid_length), ws_sliding_old_diverges "
+              "(F-C12c: the pre-fix loop guard holds after any number of iterations when d <= 1 ms), alpha_session_model_meets_spec/"
+              "_invariant/_step (StreamAlphaNode session windows under any clock); aggregates2_meet_spec/_are_exact (First, Last, "
+              "CountDistinct, CountBy, Percentile as order statistic); tied to the Rust code by a "
               "correspondence check (exhaustive short sequences + random longer ones, every public entry point, observations after every call) "
               "and by evaluating the same Spec predicates on the implementation's observations.")
 LEVEL_NOTE = ("Trusted: Lean kernel + {propext, Classical.choice, Quot.sound}; hand-written model tied to the code by differential testing only; "
-              "harness/driver glue; clock hook. Session windows of StreamAlphaNode, sliding/session WindowManager (correspondence only) "
-              "and the sliding/session branch of WindowedStream::new are outside the theorems.")
+              "harness/driver glue; clock hook. Sliding/session WindowManager and session StreamAlphaNode are specified as coded (first fit; "
+              "last-arrived timestamp) — see ASSUMPTIONS. The value of StdDev, percentiles other than 0/25/50/75/100, StreamAnalytics, "
+              "KeyedWindowedStream are outside the model.")
 DESIGN_REF = "§6 C12"
